@@ -26,7 +26,16 @@ class X:
     pass
 
 
+class M(A):
+    pass
+
+
+class D(B, M):
+    """diamond: A -> B -> D and A -> M -> D"""
+
+
 TYPES = [A, B, C, X]
+DIAMOND = [A, B, M, D]
 IDS = [1, 2, 'k']           # 1 and 2 are the ids count(1) will produce, 'k' a non-int hashable
 
 
@@ -106,8 +115,10 @@ def pick_types(sp, types, label):
     return [types[i], rest[j]]
 
 
-def h_world(sp, n_ids=2, n_types=3, build=True, steps=1, ops_ids=3):
-    types = TYPES[:n_types]
+def h_world(sp, n_ids=2, n_types=3, build=True, steps=1, ops_ids=3, universe='chain'):
+    types = (DIAMOND if universe == 'diamond' else TYPES)[:n_types]
+    if universe == 'diamond':
+        sp.cover('diamond-universe')
     ids = IDS[:max(n_ids, ops_ids)]
     w = World()
     m = Model()
@@ -236,12 +247,15 @@ TIERS = {
     'quick': [
         ('world', dict(n_ids=2, n_types=3, build=True, steps=1)),
         ('world', dict(n_ids=0, n_types=3, build=False, steps=2, ops_ids=2)),
+        ('world', dict(n_ids=1, n_types=4, build=True, steps=1, ops_ids=1, universe='diamond'),
+         dict(required=['replace', 'remove', 'diamond-universe'])),
     ],
     'thorough': [
         ('world', dict(n_ids=3, n_types=4, build=True, steps=1)),
         ('world', dict(n_ids=2, n_types=3, build=True, steps=2)),
         ('world', dict(n_ids=0, n_types=4, build=False, steps=3, ops_ids=3)),
         ('world', dict(n_ids=0, n_types=2, build=False, steps=4, ops_ids=2)),
+        ('world', dict(n_ids=2, n_types=4, build=True, steps=1, ops_ids=2, universe='diamond')),
     ],
 }
 BUDGET_S = {'quick': 120, 'thorough': 1500}
@@ -257,7 +271,7 @@ RULE = ('one evaluation = one feasible path of the decision tree (distinct by co
         'or automatic id creation with components')
 BOUNDS = {
     'quick': 'types A,B(A),C(B); shape I: 2 ids x 3 types presence bits + dead bits, 1 operation; '
-             'shape H: 2 operations from the empty world; ops on ids 1,2,(k)',
+             'shape H: 2 operations from the empty world; ops on ids 1,2,(k); diamond universe A,B(A),M(A),D(B,M) on one id, 1 operation',
     'thorough': 'types A,B(A),C(B),X; shape I: 3 ids x 4 types, 1 op; 2 ids x 3 types, 2 ops; '
                 'shape H: 3 ops (ids 1,2,k; 4 types) and 4 ops (ids 1,2; 2 types)',
 }
@@ -266,7 +280,7 @@ ASSUMPTIONS = [
     're-populating an id that was emptied while its deferred-deletion mark was pending is outside the claim '
     '(the statement does not say which incarnation the mark belongs to); such paths are cut by assume',
     'delete_entity is only called on entities that own components (documented KeyError otherwise)',
-    'single-inheritance component hierarchy here (DAGs are C06)',
+    'component hierarchies here: the chain A,B(A),C(B),X and the diamond A,B(A),M(A),D(B,M); all DAGs are C06',
 ]
 OUTSIDE = ['histories longer than the bound that do not end in a canonically built state',
            'unhashable ids (assert)', 'universes larger than the stated alphabets']
